@@ -3,7 +3,7 @@
     (lemmas in Poly.v / Interp.v).  x = ln V throughout. *)
 From Coq Require Import Reals ZArith List Bool.
 From Coquelicot Require Import Coquelicot.
-From Cij Require Import Ops ROps PolyModel InterpModel Poly Interp.
+From Cij Require Import Ops ROps PolyModel InterpModel Poly Interp InterpMore.
 Import ListNotations.
 Local Open Scope R_scope.
 
@@ -107,3 +107,135 @@ Print Assumptions loop_indexing.
 Print Assumptions plot_select_spec_iff.
 Print Assumptions plot_select_refuted.
 Print Assumptions triple_consistent_oracle.
+
+(** ================= round 2: gaps of the first build closed (lemmas in InterpMore.v) ============== *)
+
+(** 6a. the Newton / divided-difference form [interp_coeffs] (what scipy.interpolate.lagrange and
+    KroghInterpolator represent) passes through every data point, for ARBITRARY data at pairwise
+    distinct nodes *)
+Theorem newton_form_interpolates : forall (xs ys : list R),
+  NoDup xs -> length xs = length ys ->
+  forall x y, In (x, y) (combine xs ys) -> polyvalR (@interp_coeffs R ROps xs ys) x = y.
+Proof. exact interp_coeffs_interpolates. Qed.
+
+(** 6b. ... hence [node_poly] (lagrange / krogh on the sub-sampled, flipped, logarithmic nodes)
+    satisfies p(ln V_i) = ln omega_i at EVERY kept node, for arbitrary frequencies *)
+Theorem node_poly_interpolates : forall (order : nat) (vols freqs : list R),
+  List.Forall (fun v => 0 < v) vols -> NoDup vols -> length vols = length freqs ->
+  forall i, (i < length (subsample order vols))%nat ->
+    polyvalR (@node_poly R ROps order vols freqs) (ln (nth i (subsample order vols) 0)) =
+    ln (nth i (subsample order freqs) 0).
+Proof. exact node_poly_interpolates_l. Qed.
+
+(** 6c. polynomial exactness for every degree < number of nodes: if ln(omega) is ANY polynomial q in
+    ln V with at most as many coefficients as there are kept nodes, lagrange / krogh return the
+    triple of q itself on the WHOLE grid *)
+Theorem node_poly_exact_on_polynomials :
+  forall (lib : @library R) (m : method) (order : nat) (vols q grid : list R),
+    m = Lagrange \/ m = Krogh ->
+    List.Forall (fun v => 0 < v) vols -> NoDup vols -> (length q <= length (subsample order vols))%nat ->
+    @mode_fn R ROps lib m order vols (map (poly_law q) vols) grid =
+    map (fun V => poly_tripleR q (ln V)) grid.
+Proof. exact node_poly_exact_on_polynomials_l. Qed.
+
+(** 7a. the sub-sampling [::ceil(n/order)] keeps at least two nodes for every order >= 2 (n >= 2) ... *)
+Theorem subsample_at_least_two : forall (order : nat) (l : list R),
+  (2 <= order)%nat -> (2 <= length l)%nat -> (2 <= length (subsample order l))%nat.
+Proof. intros order l. exact (subsample_at_least_two_l order l). Qed.
+(** ... at most [order] nodes ... *)
+Theorem subsample_at_most_order : forall (order : nat) (l : list R),
+  (1 <= order)%nat -> (length (subsample order l) <= order)%nat.
+Proof. intros order l. exact (subsample_at_most_order_l order l). Qed.
+(** ... exactly c = ceil(n/k) of them, k = ceil(n/order) ... *)
+Theorem subsample_count : forall (order : nat) (l : list R),
+  (1 <= order)%nat -> (1 <= length l)%nat ->
+  let k := interval (length l) order in let c := length (subsample order l) in
+  ((c - 1) * k < length l <= c * k)%nat.
+Proof. intros order l. exact (subsample_count_l order l). Qed.
+(** ... and the bound 2 <= order is sharp: order = 1 keeps the first volume only *)
+Theorem subsample_order_one : forall (x : R) (t : list R), subsample 1 (x :: t) = [x].
+Proof. exact subsample_order_one_single_node. Qed.
+
+(** 7b. power_law_exact with its hypothesis discharged from the property's own quantifier
+    (node-based orders >= 2 below the number of sampled volumes) *)
+Theorem power_law_exact_admissible :
+  forall (lib : @library R) (m : method) (order : nat) (vols : list R) (a b : R) (grid : list R),
+    m = Lagrange \/ m = Krogh -> (2 <= order < length vols)%nat ->
+    List.Forall (fun v => 0 < v) vols -> NoDup vols ->
+    @mode_fn R ROps lib m order vols (map (power_law a b) vols) grid =
+    map (fun V => (exp (a + b * ln V), - b, 0)) grid.
+Proof.
+  intros lib m order vols a b grid Hm [Ho Hn]. apply power_law_exact_admissible_l; auto.
+  apply (Nat.le_trans _ order); [exact Ho | apply Nat.lt_le_incl; exact Hn].
+Qed.
+
+(** 8. least squares: two coefficient lists (order+1 entries each) that satisfy the normal equations
+    of the same data with more than [order] distinct abscissae are EQUAL - the result of the
+    (unverified) elimination is determined by the normal equations the tie checks *)
+Theorem normal_eqs_solution_unique_fit :
+  forall (order : nat) (xs ys c1 c2 roots : list R),
+    length xs = length ys -> length c1 = S order -> length c2 = S order ->
+    NoDup roots -> incl roots xs -> (order < length roots)%nat ->
+    normal_eqs order xs ys c1 -> normal_eqs order xs ys c2 -> c1 = c2.
+Proof. exact normal_eqs_solution_unique_fit_l. Qed.
+
+Theorem lsq_result_determined :
+  forall (order : nat) (xs ys c roots : list R),
+    length xs = length ys -> length c = S order -> length (@lsq_coeffs R ROps order xs ys) = S order ->
+    NoDup roots -> incl roots xs -> (order < length roots)%nat ->
+    normal_eqs order xs ys (@lsq_coeffs R ROps order xs ys) -> normal_eqs order xs ys c ->
+    c = @lsq_coeffs R ROps order xs ys.
+Proof. exact lsq_result_determined_l. Qed.
+
+(** 9a. spline / pchip / akima / hermite: for ANY library the code's output is the post-processed
+    (exp, -nu1, -nu2) triple of the ONE object it builds, and the triple is consistent at every
+    point where that object's nu=1 / nu=2 evaluations are its first / second derivative *)
+Theorem triple_consistent_library :
+  forall (lib : @library R) (m : method) (order : nat) (vols freqs : list R),
+    library_method m ->
+    let o := lib_oracle lib m order vols freqs in
+    (forall grid, @mode_fn R ROps lib m order vols freqs grid = map (fun v => oracle_tripleR o (ln v)) grid) /\
+    (forall x, is_derive (o_val o) x (o_d1 o x) -> is_derive (o_d1 o) x (o_d2 o x) ->
+        is_derive (fun t => ln (fst (fst (oracle_tripleR o t)))) x (- snd (fst (oracle_tripleR o x))) /\
+        is_derive (fun t => snd (fst (oracle_tripleR o t))) x (snd (oracle_tripleR o x))).
+Proof. exact triple_consistent_library_l. Qed.
+
+(** 9b. non-vacuity: the polynomial library satisfies the contract for the oracle shape of each of
+    the four library methods, and with it all four are exact on polynomial / power-law data *)
+Theorem spline_contract_on_polynomial_oracle :
+  forall (m : method) (order : nat) (vols freqs : list R),
+    library_method m -> library_contract (lib_oracle poly_lib m order vols freqs).
+Proof. exact spline_contract_on_polynomial_oracle_l. Qed.
+
+Theorem library_shape_exact_on_polynomial_oracle :
+  forall (m : method) (order : nat) (vols q grid : list R),
+    library_method m ->
+    List.Forall (fun v => 0 < v) vols -> NoDup vols -> (length q <= length (lib_nodes m order vols))%nat ->
+    @mode_fn R ROps poly_lib m order vols (map (poly_law q) vols) grid =
+    map (fun V => poly_tripleR q (ln V)) grid.
+Proof. exact library_shape_exact_on_polynomial_oracle_l. Qed.
+
+(** 9c. why 9a is pointwise: a C^1 piecewise-polynomial oracle (the shape of pchip / akima: pieces
+    joined C^1 at the breakpoints) satisfies the hypotheses of 9a at every point that is not a
+    breakpoint, but NOT the global [library_contract] of theorem 5 *)
+Theorem c1_piecewise_oracle_pointwise_contract : forall x : R, x <> 0 ->
+  is_derive (o_val c1_oracle) x (o_d1 c1_oracle x) /\ is_derive (o_d1 c1_oracle) x (o_d2 c1_oracle x).
+Proof. exact c1_oracle_pointwise. Qed.
+Theorem c1_piecewise_oracle_not_global_contract : ~ library_contract c1_oracle.
+Proof. exact c1_oracle_not_global. Qed.
+
+Print Assumptions newton_form_interpolates.
+Print Assumptions node_poly_interpolates.
+Print Assumptions node_poly_exact_on_polynomials.
+Print Assumptions subsample_at_least_two.
+Print Assumptions subsample_at_most_order.
+Print Assumptions subsample_count.
+Print Assumptions subsample_order_one.
+Print Assumptions power_law_exact_admissible.
+Print Assumptions normal_eqs_solution_unique_fit.
+Print Assumptions lsq_result_determined.
+Print Assumptions triple_consistent_library.
+Print Assumptions spline_contract_on_polynomial_oracle.
+Print Assumptions library_shape_exact_on_polynomial_oracle.
+Print Assumptions c1_piecewise_oracle_pointwise_contract.
+Print Assumptions c1_piecewise_oracle_not_global_contract.
